@@ -150,11 +150,10 @@ impl Property for C17 {
                 };
                 let fi = from_na(&f).ok_or_else(|| viol!("the frame is finite", "{:?}", f))?;
                 ensure!((quat_norm(&f) - 1.0).abs() < 1e-9, "the constructed frame is a proper rigid transform (unit rotation)", "quaternion norm - 1 = {:e}", quat_norm(&f) - 1.0);
-                // F * p1 = q1 always (translation anchored at the first pair)
-                let e1 = dist(&fi.apply(&p[0]), &q[0]);
-                ensure!(e1 <= 1e-9 * (1.0 + off), "the frame maps the first point to its image", "|F p1 - q1| = {:e}", e1);
                 if perturb.map(|x| x.2 == 0.0).unwrap_or(true) {
-                    // exact images: F equals the generating motion and maps each point to its image
+                    // (For images that are only congruent within the 5 mm tolerance the statement does not say which point, if any,
+                    // is mapped exactly: anchoring at the first pair or at the centroids are both rigid motions "of" the triple.)
+                    // exact images: F equals the generating motion and maps each point to its image (to within the triangle's conditioning)
                     let e12 = sub(&p[1], &p[0]);
                     let e13 = sub(&p[2], &p[0]);
                     let e23 = sub(&p[2], &p[1]);
@@ -166,7 +165,7 @@ impl Property for C17 {
                     let kappa = (1.0 + off / lmin.max(1e-300)) / sin_min.max(1e-300);
                     let bound_rot = 1e-13 * kappa + 1e-12;
                     if !(bound_rot < 1e-3) {
-                        ctx.exclude("triple: ill-conditioned (bound above 1e-3 rad), only F p1 = q1 asserted");
+                        ctx.exclude("triple: ill-conditioned (bound above 1e-3 rad), only rigidity asserted");
                         return Ok(());
                     }
                     let da = rot_angle(&fi.r, &m.r);
